@@ -68,6 +68,15 @@ def work(item):
             check_term(term, part, configs=configs)
             part.c['scaled_terms'] += 1
         return part
+    if item[0] == 'wrap':
+        part = core.Part()
+        a = D.alphabet()
+        with core.deadline(3600):
+            for term in itertools.islice(a.gen(item[1]), item[2], item[3]):
+                for v in docalg.wrap_variants(term, 'rctx'):
+                    check_term(v, part)
+                    part.c['reentrant_contextual_terms'] += 1
+        return part
     n, lo, hi = item
     part = core.Part()
     a = D.alphabet()
@@ -96,6 +105,16 @@ def plan(tier, seed):
         lo = (seed % (total // width)) * width
         items.append((7, lo, lo + width))
         desc.append('classic algebra size 7: slice [%d, %d) chosen by seed' % (lo, lo + width))
+    kw = 5 if tier == 'quick' else 6
+    nw = 0
+    for n in range(1, kw + 1):
+        total = sum(1 for _ in a.gen(n))
+        nw += total
+        for lo, hi in core.chunks(total, 1 if total < 500 else 96):
+            items.append(('wrap', n, lo, hi))
+    desc.append('re-entrant contextual: every classic-algebra term of size <= %d (%d terms) with each single '
+                'subterm position in turn wrapped in a contextual whose function runs a complete unrelated '
+                'layout before returning the subterm' % (kw, nw))
     ns = len(D.scaled_documents())
     items += [('scaled', i, i + 1) for i in range(ns)]
     desc.append('%d scaled documents (one group around 50..700 words, plain / nested / followed by text) at widths around their flat length and far above 1000 columns' % ns)
@@ -114,7 +133,7 @@ def run(tier, seed):
                 '1<=width<=flat length+2, 0<=ribbon<=width (ribbon 0 via a positive fraction that rounds to 0) '
                 'plus width 80 x {smart, fast}; state = one execution of the real engine; transition = one '
                 'SDoc token; non-trivial = terms with at least one necessarily-flat group',
-        'spaces': desc, 'terms': a.c['terms'],
+        'spaces': desc, 'terms': a.c['terms'], 'reentrant_contextual_terms': a.c['reentrant_contextual_terms'],
         'flat_group_checks': a.c['flat_group_checks'],
         'groups_flat': a.c['groups_flat'], 'groups_broken': a.c['groups_broken'],
         'groups_ambiguous': a.c['groups_ambiguous'],
